@@ -200,9 +200,12 @@ def oracle_network(c, stats):
     ref = m0 * m0 * R.Q[np.ix_(ii, ii)]
     kappa = R.cond / max(R.sg_ratio, 1e-3)
     worst = 0.0
+    # rounding floor relative to the largest variance: an element that is zero by the datum (a constrained point on the
+    # axis) next to a weakly determined coordinate (variance 3e4) carries noise of eps * scale, whatever the solver
+    floor = 1e-12 + 1e-12 * float(np.max(np.abs(np.diag(ref)))) if dim else 1e-12
     for i in range(dim):
         for j in range(i, min(dim, i + want_band + 1)):
-            t = (4e-7 + 1e-9 * kappa * kappa) * max(abs(ref[i, j]), math.sqrt(abs(ref[i, i] * ref[j, j]))) + 1e-12
+            t = (4e-7 + 1e-9 * kappa * kappa) * max(abs(ref[i, j]), math.sqrt(abs(ref[i, i] * ref[j, j]))) + floor
             worst = max(worst, abs(M[i, j] - ref[i, j]) / t)
             if abs(M[i, j] - ref[i, j]) > t:
                 fails.append("net.%s.cov: element (%d,%d) printed %.9g, m0^2 Q* = %.9g (band %d)" % (alg, i + 1, j + 1, M[i, j], ref[i, j], want_band))
